@@ -5,6 +5,7 @@ import PyYetiVerif.Model.SuCoefCuts
 import PyYetiVerif.Model.SuCoefExp1
 import PyYetiVerif.Model.SuCoefStatic
 import PyYetiVerif.Model.SuCoefPreEig
+import PyYetiVerif.Model.SuCoefCplxUnc
 /-! Line protocol for C01.  Floats travel as decimal `UInt64` bit patterns.
 
 `coef <m|none> <b> <k> <h> <rb: n|0|1> <rf: 0|1>`
@@ -39,6 +40,12 @@ import PyYetiVerif.Model.SuCoefPreEig
 `pex <n> <bkind> <b> <phi: n*n> <w: n> <static 0|1> <d0 opt> <v0 opt> <F0: n>`
       -> `ok <modal b: n*n> <d: n> <v: n> <a: n>` as `num/den` | `singular`
          (`preEigProblem`, `modalFirstSampleUnc`, `preEigSolution` over `Rat`; modal system uncoupled)
+`cu <order> <h> <n> <mkind: none|vec> [m: 2n] <b: 2n> <k: 2n> <rb: n | c i…> <static 0|1> <d0: n | y 2n values>
+    <v0: n | y 2n values> <nt> <force: 2*n*nt row-major> <N> <lam: 2N> <urV: 2*ne*N> <urD: 2*ne*N> <invV: 2*N*ne>
+    <invD: 2*N*ne>`   (complex numbers as re im pairs; `ne` = number of elastic rows by the model's partition)
+      -> `ok <d: 2*n*nt> <v: 2*n*nt> <a: 2*n*nt>` | `err:sizes`
+         (`SolveUnc.tsolve` on uncoupled equations with complex-dtype coefficients: `mkPart`, `initD`, `cplxUncRbDV`,
+          `cplxUncRbAcc`, `coupledRunCplx` on the implementation's own pc, `calcAcce`)
 anything else -> `bad-op`. -/
 open PyYetiVerif.SuCoef PyYetiVerif.SuPartition
 
@@ -494,6 +501,93 @@ def doPex (ws : List String) : Option String := do
         | _ => none
   | [] => none
 
+
+instance : BEq CF := ⟨fun a b => a.re == b.re && a.im == b.im⟩
+
+def showCF (z : CF) : String := showF z.re ++ " " ++ showF z.im
+
+def cfAbs (z : CF) : Float := Float.sqrt (z.re * z.re + z.im * z.im)
+
+/-- `SolveUnc(m, b, k, h, rb, order).tsolve(force, d0, v0, static_ic)` for uncoupled equations with complex-dtype
+coefficients (no rf modes): the complex-eigenvalue path with the undamped rigid-body recurrence -/
+def doCu (ws : List String) : Option String := do
+  match ws with
+  | os :: hs :: ns :: mk :: rest =>
+    let order1 ← match os with | "1" => some true | "0" => some false | _ => none
+    let h ← fbits hs
+    let n ← ns.toNat?
+    let (m, rest) : Option (Array CF) × List String ←
+      if mk == "none" then some (none, rest)
+      else if mk == "vec" then (readCF rest n).map fun (a, r) => (some a, r) else none
+    let (b, rest) ← readCF rest n
+    let (k, rest) ← readCF rest n
+    let (rb, rest) ← readOptIdx rest
+    let (static, rest) ← match rest with
+      | "1" :: r => some (true, r) | "0" :: r => some (false, r) | _ => none
+    let readOptC : List String → Option (Option (Array CF) × List String) := fun ws =>
+      match ws with
+      | "n" :: r => some (none, r)
+      | "y" :: r => (readCF r n).map fun (a, r) => (some a, r)
+      | _ => none
+    let (d0, rest) ← readOptC rest
+    let (v0, rest) ← readOptC rest
+    let (nt, rest) ← readNat rest
+    let (fl, rest) ← readCF rest (n * nt)
+    let (N, rest) ← readNat rest
+    let z : CF := ⟨0, 0⟩
+    -- partition: `_make_rb_el`, uncoupled: `abs(self.k) < tol`
+    let kabs : List Float := (List.range n).map fun g => cfAbs (k.getD g z)
+    let p := mkPart n rb [] fun i => smallUnc Float.abs 0 kabs rbTolPartF i
+    let ne := p.el.length
+    let (lam, rest) ← readCF rest N
+    let (urV, rest) ← readCF rest (ne * N)
+    let (urD, rest) ← readCF rest (ne * N)
+    let (invV, rest) ← readCF rest (N * ne)
+    let (invD, rest) ← readCF rest (N * ne)
+    if !rest.isEmpty then none
+    let mOf (g : Nat) : Option CF := m.map fun a => a.getD g z
+    let force (g : Nat) : List CF := (List.range nt).map fun t => fl.getD (g * nt + t) z
+    let useSt := useStatic static d0.isSome (p.el.map fun g => fl.getD (g * nt) z)
+    let dInit (g : Nat) : CF := initD (d0.map fun a => a.getD g z) useSt (p.el.contains g) (k.getD g z)
+      (fl.getD (g * nt) z)
+    let vInit (g : Nat) : CF := initV (v0.map fun a => a.getD g z)
+    -- elastic rows: the modal recurrence on the implementation's own decomposition of the elastic partition
+    let ela := p.el.toArray
+    let e : Eig CF ne N :=
+      { lam := fun j => lam.getD j.val z
+        urV := fun i j => urV.getD (i.val * N + j.val) z
+        urD := fun i j => urD.getD (i.val * N + j.val) z
+        invV := fun j i => invV.getD (j.val * ne + i.val) z
+        invD := fun j i => invD.getD (j.val * ne + i.val) z }
+    let imf : List (Fin ne → CF) := (List.range nt).map fun t => fun i =>
+      let g := ela.getD i.val 0
+      cplxUncRbForce (mOf g) (fl.getD (g * nt + t) z)
+    let isSmall : CF → Bool := fun l => cplxIsSmallF l.re l.im
+    let elOut := (coupledRunCplx order1 isSmall (⟨h, 0⟩ : CF) e (fun i => dInit (ela.getD i.val 0))
+      (fun i => vInit (ela.getD i.val 0)) imf).toArray
+    let rows : List (List CF × List CF × List CF) := (List.range n).map fun g =>
+      match p.el.idxOf? g with
+      | some i =>
+        let d := (List.range nt).map fun t => match elOut[t]? with
+          | some s => if h : i < ne then s.1 ⟨i, h⟩ else z
+          | none => z
+        let v := (List.range nt).map fun t => match elOut[t]? with
+          | some s => if h : i < ne then s.2 ⟨i, h⟩ else z
+          | none => z
+        let a := (List.range nt).map fun t =>
+          match mOf g with
+          | some mm => calcAcce mm (b.getD g z) (k.getD g z) (d.getD t z) (v.getD t z) (fl.getD (g * nt + t) z)
+          | none => calcAcceNone (b.getD g z) (k.getD g z) (d.getD t z) (v.getD t z) (fl.getD (g * nt + t) z)
+        (d, v, a)
+      | none =>
+        -- rigid-body row: the undamped recurrence (the row's `b`, `k` are not used)
+        let hist := cplxUncRbDV order1 (⟨h, 0⟩ : CF) (mOf g) (b.getD g z) (k.getD g z) (dInit g, vInit g) (force g)
+        (hist.map Prod.fst, hist.map Prod.snd, cplxUncRbAcc (mOf g) (b.getD g z) (k.getD g z) (force g))
+    let out (sel : List CF × List CF × List CF → List CF) : String :=
+      " ".intercalate ((rows.map sel).flatten.map showCF)
+    pure ("ok " ++ out (·.1) ++ " " ++ out (·.2.1) ++ " " ++ out (·.2.2))
+  | _ => none
+
 /-- the uncoupled real path of `SolveUnc(m, b, k, h, rb, rf, order).tsolve(force, d0, v0, static_ic)` -/
 def doSys (ws : List String) : Option String := do
   match ws with
@@ -583,6 +677,7 @@ def answer (line : String) : String :=
     | "pe" :: ws => doPe ws
     | "perec" :: ws => doPeRec ws
     | "pex" :: ws => doPex ws
+    | "cu" :: ws => doCu ws
     | _ => none
   r.getD "bad-op"
 
